@@ -480,12 +480,12 @@ impl RomSet for VRomSet {
 }
 
 // @harness
-// @prop C15
+// @prop C15 C06
 // @tier quick
 // @timeout 900
 // @fn Emulator::load_rom; Emulator::load_rom_binary_16k_pages; LoadableAsset::read_exact; ZXMemory::rom_page_data_mut
 // @sym witness byte value; enumerated: machine, number of page assets offered 0..2, asset sizes {0, 16383, 16384, 20000}, failing / short-reading / prematurely ending asset
-// @assert no panic; Ok exactly when every ROM page of the machine got an asset of at least 16384 bytes that did not fail (a short read is retried), Err(MoreAssetsRequired / UnexpectedEof / host error) otherwise; on Ok the witness byte of ROM page 0 is what the asset held
+// @assert no panic; Ok exactly when every ROM page of the machine got an asset of at least 16384 bytes that did not fail (a short read is retried), Err(MoreAssetsRequired / UnexpectedEof / host error) otherwise; on Ok the witness byte of ROM page 0 (its last byte, offset 0x3FFF, read by the CPU at 0x3FFF) is what the asset held - also when the host asset delivers the page in several short reads (C06: 0x0000-0x3FFF reads the ROM image supplied for the machine)
 // @bound 14 concrete configurations
 // @outside bytes of the ROM image outside the witness (one slice copy per page)
 #[kani::proof]
